@@ -61,7 +61,7 @@ def runCall (pc : PanicCfg) (scripts : Scripts) (c : Call) : Except PanicVal Rec
       | none => .error .fault
       | some acts =>
         let r0 : Rec := { hdr := c.respHeaders }
-        .ok (if c.headWrap then runHead acts 0 r0 else runGet acts r0)
+        .ok (if c.headWrap then runHead acts 0 false r0 else runGet acts r0)
 
 inductive Outcome where
   | normal (r : Rec)
